@@ -514,12 +514,13 @@ def _um_definer(ctx, kids):
 def _um_heading(ctx, kids):
     # a heading that comes from the body of a user macro: title, dot and all belong to the call
     g = ctx.gword()
-    ctx.w('\\newcommand{\\mSn}{\\section{%s \\LaTeX}}' % g)
+    # (the title ends with a token that is longer than the call of the macro)
+    ctx.w('\\newcommand{\\mSn}{\\section{%s \\textbackslash}}' % g)
     ctx.gap()
     n = ctx.open('um_heading', WS)
     ctx.w('\\mSn{}')
     ctx.gen(g, n)
-    ctx.gen('LaTeX', n)
+    ctx.gen('\\', n)
     ctx.gen('.', n)
     ctx.close()
 
